@@ -1,15 +1,16 @@
 (** Reference for C13: which single-line sites the user's line lists permit; which lines a pattern list denotes. *)
 From CM Require Export Model.LineFilter Spec.GlobSpec.
 
-(** A construct on line n may be rewritten iff n is not excluded and — when no exclusion is given but an
-    inclusion list is — n is included.  (A non-empty exclusion list shadows the inclusion list: code comment
-    "excludes takes precedence if defined".) *)
+(** The property text: "a construct on an excluded line or on a line not included is not rewritten ... while permitted
+    lines are still fixed", for E and I "alone or combined".  A construct on line n may be rewritten iff n is not
+    excluded and, when lines of the file are included, n is one of them.  (This is NOT what the code as written does
+    when both lists are given: there a non-empty exclusion list shadows the inclusion list.) *)
 Definition Permitted (line_exclude line_include : list Z) (n : Z) : Prop :=
-  match line_exclude with
-  | _ :: _ => ~ In n line_exclude
-  | [] => match line_include with _ :: _ => In n line_include | [] => True end
-  end.
+  ~ In n line_exclude /\ (line_include = [] \/ In n line_include).
 Definition permittedb (line_exclude line_include : list Z) (n : Z) : bool :=
+  negb (memZ n line_exclude) && match line_include with _ :: _ => memZ n line_include | [] => true end.
+(** what the code as written computes instead *)
+Definition shadow_permittedb (line_exclude line_include : list Z) (n : Z) : bool :=
   match line_exclude with
   | _ :: _ => negb (memZ n line_exclude)
   | [] => match line_include with _ :: _ => memZ n line_include | [] => true end
